@@ -326,6 +326,24 @@ for i, op in enumerate(("insert", "replace", "remove", "take", "contains_get", "
         NM([(2, 1), (2, 2)]) if i >= 5 else NM([(2, 0), (3, 0)]), unwind="N+M+3" if 6 <= i <= 9 else "max(N,M)+2", expect=MAYPANIC(*LAW_OK),
         fn="Set::%s under lawless ==" % op, shape="S_law", timeout="30m")
 
+# ------------------------------------------------------------------ C19 Debug / Display
+def NL(n, lens):
+    return [{"N": n, "A": l} for l in lens]
+
+
+add("c19_display_map", "c19::h_display_map::<{N}>({A})", ["C19", "C06"], NL(2, (0, 1, 2)), NL(3, (0, 1, 2, 3)) + NL(4, (4,)), unwind="max(N,4)+2", fn="Display for Map", shape="S_fmt", timeout="30m")
+add("c19_display_set", "c19::h_display_set::<{N}>({A})", ["C19", "C06"], NL(2, (0, 1, 2)), NL(3, (0, 1, 2, 3)), unwind="max(N,4)+2", fn="Display for Set", shape="S_fmt", timeout="30m")
+add("c19_debug_map", "c19::h_debug_map::<{N}>(false, {A})", ["C19", "C06"], NL(2, (0, 1, 2)), NL(3, (0, 1, 2, 3)), unwind="max(N,6)+2", fn="Debug for Map ({:?})", shape="S_fmt", timeout="30m")
+add("c19_debug_map_alt", "c19::h_debug_map::<{N}>(true, {A})", ["C19"], NL(1, (0,)), NL(1, (0, 1)), unwind="max(N,6)+2", fn="Debug for Map ({:#?})", shape="S_fmt", timeout="30m")
+add("c19_debug_set", "c19::h_debug_set::<{N}>(false, {A})", ["C19", "C06"], NL(2, (0, 1, 2)), NL(3, (0, 1, 2, 3)), unwind="max(N,6)+2", fn="Debug for Set ({:?})", shape="S_fmt", timeout="30m")
+add("c19_debug_set_alt", "c19::h_debug_set::<{N}>(true, {A})", ["C19"], NL(1, (0,)), NL(1, (0, 1)), unwind="max(N,6)+2", fn="Debug for Set ({:#?})", shape="S_fmt", timeout="30m")
+for i, nm in enumerate(("Iter", "IterMut", "Keys", "Values", "ValuesMut", "IntoIter", "IntoKeys", "IntoValues", "Drain")):
+    add("c19_debug_" + nm.lower(), "c19::h_debug_iter::<{N}>(%d, {A}, {B})" % i, ["C19"], [{"N": 2, "A": 2, "B": 0}, {"N": 2, "A": 2, "B": 1}],
+        [{"N": 3, "A": 3, "B": b} for b in (0, 1, 2, 3)] + [{"N": 3, "A": 2, "B": 1}], unwind="max(N,6)+2", fn="Debug for " + nm, shape="S_fmt", timeout="30m")
+for i, nm in enumerate(("Union", "Intersection", "Difference", "SymmetricDifference")):
+    add("c19_debug_" + nm.lower(), "c19::h_debug_adaptor::<{N}, {M}>(%d, {A}, {B}, {C})" % i, ["C19"], [{"N": 1, "M": 1, "A": 1, "B": 1, "C": c} for c in (0, 1)] if i < 3 else [],
+        ([{"N": 2, "M": 1, "A": 2, "B": 1, "C": c} for c in (0, 1)] if i in (1, 2) else []) + [{"N": 1, "M": 1, "A": 1, "B": 1, "C": 0}], unwind="max(N,M,6)+2", fn="Debug for " + nm, shape="S_fmt", timeout="30m")
+
 
 def units_for(prop):
     return [u for u in UNITS if prop in u.props or "*" in u.props]
